@@ -1,3 +1,166 @@
-import Chiritori.Spec.Holds
+import Chiritori.Props.C04
+/-
+  C11 — Unwrap-block removes the two tag lines and the two wrapper lines, nothing else.
+
+  * `parts_lines`: when an unwrap-block is unwrapped, its opening part runs from the first character of the
+    opening tag to the end of the line after the tag's line (the second line break at or after the end of the
+    tag), and its closing part from the beginning of the line before the closing tag's line (just behind the
+    second line break before the tag) to the last character of the closing tag.
+  * `unwrappable_iff`: that happens exactly when at least three line breaks lie between the two tags, i.e.
+    at least two lines stand between the tag lines; with fewer (or with both tags on one line) the element has
+    no extent at all (`too_short_no_extent`).
+  * Together with C02/C03 (`Props.C02.c02_c03`): the two parts disappear completely and nothing outside them
+    (and outside other ready extents) disappears except whitespace, so every inner line survives; with C04: an
+    element that cannot be unwrapped is left untouched, tags included, when nothing else is ready.
+  The statement is about arbitrary sources; block documents (every tag alone on its line) are the special case
+  in which the two parts are exactly four lines.
+-/
 namespace Chiritori.Props.C11
+open Chiritori Chiritori.Spec
+
+/-- the opening part ends at the second line break at or after the end of the opening tag; the closing part
+    starts just behind the second line break before the closing tag -/
+theorem parts_lines (b : Bytes) (st en : Token) (h t : Rng) (h0 : 0 < st.bstop) (hlen : en.bstart ≤ b.length)
+    (hu : unwrapParts b st en = some (h, t)) :
+    ∃ p1 q1,
+      -- p1: first line break at or after the end of the opening tag; h.2: the next one
+      st.bstop ≤ p1 ∧ b[p1]? = some NL ∧ (∀ i, st.bstop ≤ i → i < p1 → b[i]? ≠ some NL) ∧
+      p1 < h.2 ∧ b[h.2]? = some NL ∧ (∀ i, p1 < i → i < h.2 → b[i]? ≠ some NL) ∧
+      -- q1: last line break before the closing tag; t.1 - 1: the one before it
+      q1 < en.bstart ∧ b[q1]? = some NL ∧ (∀ i, q1 < i → i < en.bstart → b[i]? ≠ some NL) ∧
+      t.1 ≤ q1 ∧ b[t.1 - 1]? = some NL ∧ (∀ i, t.1 ≤ i → i < q1 → b[i]? ≠ some NL) ∧
+      h.1 = st.bstart ∧ t.2 = en.bstop ∧ h.2 < t.1 := by
+  have hb := buildUnwrap_eq b st en h0 hlen
+  rw [hu] at hb
+  simp only at hb
+  unfold buildUnwrap at hb
+  cases hp1 : findNextLB b st.bstop false with
+  | none => rw [hp1] at hb; simp at hb
+  | some p1 =>
+    rw [hp1] at hb
+    simp only [Option.bind_some] at hb
+    cases hp2 : findNextLB b (p1 + 1) false with
+    | none => rw [hp2] at hb; simp at hb
+    | some p2 =>
+      rw [hp2] at hb
+      cases hq1 : findPrevLB b en.bstart false with
+      | none => rw [hq1] at hb; simp at hb
+      | some q1 =>
+        rw [hq1] at hb
+        simp only [Option.bind_some] at hb
+        cases hq2 : findPrevLB b q1 false with
+        | none => rw [hq2] at hb; simp at hb
+        | some q2 =>
+          rw [hq2] at hb
+          simp only at hb
+          obtain ⟨_, a2, _, a4, a5, _⟩ := findNextLB_some b st.bstop p1 false hp1
+          obtain ⟨_, c2, _, c4, c5, _⟩ := findNextLB_some b (p1 + 1) p2 false hp2
+          obtain ⟨_, d2, _, d4, d5, _⟩ := findPrevLB_some b en.bstart q1 false hq1
+          obtain ⟨e1, e2, _, e4, e5, _⟩ := findPrevLB_some b q1 q2 false hq2
+          split at hb
+          · rename_i hv
+            injection hb with hb1 hb2
+            injection hb2 with hb2
+            subst hb1; subst hb2
+            refine ⟨p1, q1, a2, a4, a5, by simp only; omega, c4, ?_, d2, d4, d5, by simp only; omega,
+              by simpa using e4, ?_, rfl, rfl, by simp only; omega⟩
+            · intro i hi1 hi2; exact c5 i (by omega) hi2
+            · intro i hi1 hi2; exact e5 i (by simp only at hi1; omega) hi2
+          · injection hb with hb1 hb2
+            simp at hb2
+
+/-- an unwrap-block is unwrapped exactly when three line breaks lie between the end of its opening tag and the
+    start of its closing tag (at least two lines between the two tag lines) -/
+theorem unwrappable_iff (b : Bytes) (st en : Token) (h0 : 0 < st.bstop) (hlen : en.bstart ≤ b.length) :
+    (unwrapParts b st en).isSome = true ↔
+      ∃ x y z, st.bstop ≤ x ∧ x < y ∧ y < z ∧ z < en.bstart ∧
+        b[x]? = some NL ∧ b[y]? = some NL ∧ b[z]? = some NL := by
+  constructor
+  · intro hs
+    cases hu : unwrapParts b st en with
+    | none => rw [hu] at hs; simp at hs
+    | some ht =>
+      obtain ⟨h, t⟩ := ht
+      obtain ⟨p1, q1, a1, a2, _, a4, a5, _, c1, c2, _, c4, c5, _, _, _, hlt⟩ := parts_lines b st en h t h0 hlen hu
+      exact ⟨p1, h.2, q1, a1, a4, by omega, c1, a2, a5, c2⟩
+  · rintro ⟨x, y, z, hx, hxy, hyz, hz, nx, ny, nz⟩
+    have hb := buildUnwrap_eq b st en h0 hlen
+    -- all four finder calls succeed and the validity test passes
+    cases hp1 : findNextLB b st.bstop false with
+    | none => exact absurd nx (findNextLB_none_false b st.bstop h0 hp1 x hx)
+    | some p1 =>
+      obtain ⟨_, a2, _, a4, a5, _⟩ := findNextLB_some b st.bstop p1 false hp1
+      have hp1x : p1 ≤ x := by
+        by_cases h : p1 ≤ x
+        · exact h
+        · exact absurd nx (a5 x hx (by omega))
+      cases hp2 : findNextLB b (p1 + 1) false with
+      | none => exact absurd ny (findNextLB_none_false b (p1 + 1) (by omega) hp2 y (by omega))
+      | some p2 =>
+        obtain ⟨_, c2, _, c4, c5, _⟩ := findNextLB_some b (p1 + 1) p2 false hp2
+        have hp2y : p2 ≤ y := by
+          by_cases h : p2 ≤ y
+          · exact h
+          · exact absurd ny (c5 y (by omega) (by omega))
+        cases hq1 : findPrevLB b en.bstart false with
+        | none => exact absurd nz (findPrevLB_none_false b en.bstart hlen hq1 z (by omega) hz)
+        | some q1 =>
+          obtain ⟨_, d2, _, d4, d5, _⟩ := findPrevLB_some b en.bstart q1 false hq1
+          have hq1z : z ≤ q1 := by
+            by_cases h : z ≤ q1
+            · exact h
+            · exact absurd nz (d5 z (by omega) hz)
+          cases hq2 : findPrevLB b q1 false with
+          | none => exact absurd ny (findPrevLB_none_false b q1 (by omega) hq2 y (by omega) (by omega))
+          | some q2 =>
+            obtain ⟨_, e2, _, e4, e5, _⟩ := findPrevLB_some b q1 q2 false hq2
+            have hq2y : y ≤ q2 := by
+              by_cases h : y ≤ q2
+              · exact h
+              · exact absurd ny (e5 y (by omega) (by omega))
+            unfold buildUnwrap at hb
+            rw [hp1] at hb
+            simp only [Option.bind_some] at hb
+            rw [hp2, hq1] at hb
+            simp only [Option.bind_some] at hb
+            rw [hq2] at hb
+            simp only at hb
+            rw [if_pos (by omega : q2 ≥ p2)] at hb
+            cases hu : unwrapParts b st en with
+            | none => rw [hu] at hb; simp at hb
+            | some _ => rfl
+
+/-- fewer than three line breaks between the tags: the element has no removable extent -/
+theorem too_short_no_extent (b : Bytes) (el : Element) (st en : Token) (h0 : 0 < st.bstop) (hlen : en.bstart ≤ b.length)
+    (hu : hasAttr el "unwrap-block" = true)
+    (hshort : ¬ ∃ x y z, st.bstop ≤ x ∧ x < y ∧ y < z ∧ z < en.bstart ∧
+        b[x]? = some NL ∧ b[y]? = some NL ∧ b[z]? = some NL) : extentOf b el st en = [] := by
+  unfold extentOf
+  rw [if_pos hu]
+  cases hp : unwrapParts b st en with
+  | none => rfl
+  | some ht =>
+    exfalso
+    apply hshort
+    exact (unwrappable_iff b st en h0 hlen).mp (by rw [hp]; rfl)
+
+/-- ... and the extent of an unwrappable one is exactly its two parts -/
+theorem extent_two_parts (b : Bytes) (el : Element) (st en : Token) (h t : Rng)
+    (hu : hasAttr el "unwrap-block" = true) (hp : unwrapParts b st en = some (h, t)) :
+    extentOf b el st en = [h, t] := by
+  unfold extentOf
+  rw [if_pos hu, hp]
+
+/-! Kernel-evaluated instances: k = 2 is unwrapped (D6), k = 1 is not. -/
+def cfg0 : Cfg := ⟨"tl".toList, "rm".toList, 1577836800, 0, "+00:00".toList, []⟩
+def cleanOr (src : String) : List Char :=
+  match clean src.toList "<".toList ">".toList cfg0 with
+  | .ok o => o
+  | .error _ => "PANIC".toList
+example : cleanOr "a\n<tl to='2000-01-01 00:00:00' unwrap-block>\n{\n}\n</tl>\nb\n" = "a\n\nb\n".toList := by decide +kernel
+example : cleanOr "a\n<tl to='2000-01-01 00:00:00' unwrap-block>\n{\n</tl>\nb\n"
+    = "a\n<tl to='2000-01-01 00:00:00' unwrap-block>\n{\n</tl>\nb\n".toList := by decide +kernel
+example : cleanOr "a\n<tl to='2000-01-01 00:00:00' unwrap-block>\nif (x) {\n  keep\n}\n</tl>\nb\n" = "a\nkeep\nb\n".toList := by
+  decide +kernel
+
 end Chiritori.Props.C11
